@@ -245,7 +245,8 @@ def triples_close(impl, model):
 # checks
 # ------------------------------------------------------------------------------------------
 def tie_crps(ctx, c, components=True):
-    """implementation vs model for one generated call; also value = proved specification (exact) and the component relations"""
+    """one generated call: (1) property predicates on the implementation -- value = proved specification, component relations --
+    and (2) implementation vs code-faithful model.  The two are independent: a tie failure never hides a predicate."""
     dims, labs, m = model_crps(ctx, c)
     impl = call_crps(c, include_components=components)
     desc = describe(c)
@@ -255,32 +256,104 @@ def tie_crps(ctx, c, components=True):
         ctx.case(("crps", desc), nontrivial=ok)
         ctx.count("error_path" if ok else "error_mismatch")
         if not ok:
-            ctx.tie_fail("crps_cdf raises/returns differently from the model", desc, str(impl[1])[:200], str(res)[:200])
+            if core.is_err(res):
+                ctx.tie_fail("crps_cdf returns a value where the model raises", desc, "value", str(res)[:200])
+            else:
+                ctx.violation("crps_cdf raises on an input inside its documented domain", desc, "a value", str(impl[1])[:200])
         return None
     ds = impl[1]
     got = impl_triples(ds, dims, labs)
     mod = [core.dec_nums(t) for t in res]
     finite = any(isinstance(t[0], Fraction) for t in mod)
     ctx.case(("crps", desc), nontrivial=finite)
-    for lb, g, q in zip(labs, got, mod):
-        if not triples_close(g, q):
-            ctx.tie_fail("crps_cdf value differs from the model", {**desc, "case": dict(zip(dims, lb))}, g, [str(x) for x in q])
-            return None
+    # (1a) value = proved specification value (integral / trapezoid sum on the documented grid and fills)
     if spec != "none":
         for lb, g, t in zip(labs, got, spec):
             q = core.dec_nums(t)
             if not triples_close(g, q):
-                ctx.violation("crps_cdf(exact) differs from the integral of w(x)(F(x)-1{x>=obs})^2 (proved specification value)",
-                              {**desc, "case": dict(zip(dims, lb))}, [str(x) for x in q], g)
-                return None
+                what = ("crps_cdf(exact) differs from the integral of w(x)(F(x)-1{x>=obs})^2" if c["opt"]["integration_method"] == "exact"
+                        else "crps_cdf(trapz) differs from the trapezoid rule applied to w (F - obs_cdf)^2")
+                ctx.violation(what + " (proved specification value; total, under, over)", {**desc, "case": dict(zip(dims, lb))}, [str(x) for x in q], g)
+                break
+    # (1b) under + over = total, both >= 0
     if components:
         for lb, g in zip(labs, got):
             t, u, o = g
             if not (np.isnan(t) and np.isnan(u) and np.isnan(o)):
                 if not (abs(u + o - t) <= 1e-9 and u >= -1e-12 and o >= -1e-12):
                     ctx.violation("under + over != total or a negative component", {**desc, "case": dict(zip(dims, lb))}, "u+o=t, u>=0, o>=0", g)
-                    return None
-    return ds
+                    break
+    # (2) tie
+    for lb, g, q in zip(labs, got, mod):
+        if not triples_close(g, q):
+            ctx.tie_fail("crps_cdf value differs from the model", {**desc, "case": dict(zip(dims, lb))}, g, [str(x) for x in q])
+            break
+    return ds, dims, labs, mod
+
+
+def tie_reduce(ctx, c, mod, dims, labs):
+    """reduce_dims / preserve_dims spellings and weights: implementation vs gather + weighted NaN-skipping mean over the model's per-case values"""
+    rng = ctx.rng
+    sizes = c["sizes"]
+    rd, pd = gens.rand_dimspec(rng, list(sizes) + ([TD] if rng.random() < 0.3 else []), allow_bad=True)
+    w = None
+    if rng.random() < 0.5 and sizes:
+        wd = {d: sizes[d] for d in sizes if rng.random() < 0.6}
+        if rng.random() < 0.15:
+            wd["z"] = 2
+        w = make_da(rng, wd, None, None, lambda: NAN if rng.random() < 0.1 else rng.randint(0, 6) / 2.0)
+    comps = rng.random() < 0.5
+    kw = dict(threshold_dim=TD, threshold_weight=c["weight"], additional_thresholds=c["add"], include_components=comps, **c["opt"])
+    if rd is not None:
+        kw["reduce_dims"] = rd
+    if pd is not None:
+        kw["preserve_dims"] = pd
+    if w is not None:
+        kw["weights"] = w
+    impl = core.call_impl(S().crps_cdf, c["fcst"], c["obs"], **kw)
+    shape = enc_list([enc_list([enc_str(d), str(sizes[d])]) for d in dims])
+    names = NAMES if comps else NAMES[:1]
+    arrays = [enc_list([shape, enc_list([enc_num(t[k]) for t in mod])]) for k in range(len(names))]
+    m = ctx.model("c07_reduce", enc_list([
+        enc_list([enc_str(d) for d in c["fcst"].dims]), enc_list([enc_str(d) for d in c["obs"].dims]),
+        enc_opt(c["weight"], lambda x: enc_list([enc_str(d) for d in x.dims])), enc_str(TD),
+        enc_list(arrays), enc_opt(w, core.enc_arr), core.enc_dimspec(rd), core.enc_dimspec(pd)]))
+    desc = {**describe(c), "reduce_dims": rd, "preserve_dims": pd, "weights": gens.da_repr(w) if w is not None else None, "include_components": comps}
+    ok, why = core.compare_dataset(impl, m, names)
+    ctx.case(("reduce", desc), nontrivial=impl[0] == "ok")
+    ctx.count("reduce:" + ("ok" if impl[0] == "ok" else impl[1]))
+    if not ok:
+        ctx.tie_fail("crps_cdf reduction differs from gather + weighted mean of the per-case values: " + why, desc,
+                     str(impl[1])[:300] if impl[0] == "err" else {n: np.asarray(impl[1][n].values).tolist() for n in names}, str(m)[:300])
+
+
+def dims_errors(ctx, c):
+    """dimension part of check_crps_cdf_inputs: every violation is a ValueError"""
+    rng = ctx.rng
+    P = S()
+    kind = rng.choice(["td_missing", "td_in_obs", "obs_extra_dim", "weight_no_td", "weight_extra_dim"])
+    fc, ob, w = c["fcst"], c["obs"], c["weight"]
+    td = TD
+    if kind == "td_missing":
+        td = "nope"
+    elif kind == "td_in_obs":
+        ob = ob.expand_dims({TD: [1.0]})
+    elif kind == "obs_extra_dim":
+        ob = ob.expand_dims({"q": [0, 1]})
+    elif kind == "weight_no_td":
+        w = xr.DataArray([1.0, 1.0], dims=["q"], coords={"q": [0, 1]}) if not c["sizes"] else \
+            xr.DataArray(np.ones(c["sizes"][sorted(c["sizes"])[0]]), dims=[sorted(c["sizes"])[0]])
+    elif kind == "weight_extra_dim":
+        w = xr.DataArray(np.ones((2, 2)), dims=["q", TD], coords={"q": [0, 1], TD: [0.0, 1.0]})
+    kw = dict(threshold_dim=td, threshold_weight=w, **c["opt"])
+    impl = core.call_impl(P.crps_cdf, fc, ob, **kw)
+    m = ctx.model("c07_reduce", enc_list([
+        enc_list([enc_str(d) for d in fc.dims]), enc_list([enc_str(d) for d in ob.dims]),
+        enc_opt(w, lambda x: enc_list([enc_str(d) for d in x.dims])), enc_str(td), enc_list([]), "none", "none", "none"]))
+    ctx.case(("dims_error", kind, describe(c)), nontrivial=True)
+    ctx.count("dims_error:" + kind)
+    if not (impl[0] == "err" and core.is_err(m) and impl[1] == m):
+        ctx.tie_fail("dimension check of crps_cdf differs from the model (" + kind + ")", {"kind": kind, **describe(c)}, str(impl[1])[:200], str(m)[:200])
 
 
 CORPUS = [
@@ -301,7 +374,7 @@ def corpus(ctx):
         ctx.case(("corpus", str(k)))
         ctx.count("corpus")
         if r[0] != "ok" or not core.close(got, k["expect"]):
-            ctx.violation("crps_cdf(exact) with a weight that is not a 0/1 step (or has an isolated zero) is not the weighted integral",
+            ctx.violation("corpus case (regression input of the repaired defect crps-cdf-exact-general-weight): crps_cdf(exact) is not the weighted integral",
                           {"thresholds": k["ths"], "fcst": k["f"], "obs": k["obs"], "threshold_weight": k["w"], "integration_method": "exact"},
                           str(k["expect"]), got)
 
@@ -340,7 +413,8 @@ def partition(ctx, c):
 
 
 def brier_tie_and_trapz(ctx, c):
-    """crps_cdf_brier_decomposition vs model; trapz (total and components) = trapezoid rule over the decomposition"""
+    """crps_cdf_brier_decomposition: per-threshold definition (predicate) and model (tie); trapz (total and components) = trapezoid rule
+    over the decomposition (predicate between public calls)"""
     P = S()
     if c["bad"] not in (None, "fcst_bounds", "nonincreasing"):
         return
@@ -364,28 +438,50 @@ def brier_tie_and_trapz(ctx, c):
     grid = core.dec_nums(m[0])
     ds = impl[1]
     bn = ["total_penalty", "underforecast_penalty", "overforecast_penalty"]
+    # predicate: at every threshold total = (F - 1{thr >= obs})^2 = under + over, under is the part with obs > thr, over the part with obs <= thr
+    for lb in labs:
+        sel = dict(zip(dims, lb))
+        ov = line_of(c["obs"], dims, lb)[0]
+        tot = [float(v) for v in ds[bn[0]].sel(sel).values]
+        und = [float(v) for v in ds[bn[1]].sel(sel).values]
+        ovr = [float(v) for v in ds[bn[2]].sel(sel).values]
+        for j, t in enumerate(ds[TD].values):
+            if np.isnan(tot[j]):
+                continue
+            h = 1.0 if t >= ov else 0.0
+            good = abs(und[j] + ovr[j] - tot[j]) <= 1e-12 and (und[j] == 0.0 if h == 1.0 else ovr[j] == 0.0) and -1e-12 <= tot[j] <= 1 + 1e-12
+            if not good:
+                ctx.violation("Brier decomposition: total != under + over, or the wrong component is non-zero for the side of the observation",
+                              {**desc, "case": sel, "threshold": float(t)}, "under (obs > thr) / over (obs <= thr)", [tot[j], und[j], ovr[j]])
+                break
+    # tie
     if [float(x) for x in ds[TD].values] != [float(g) for g in grid]:
         ctx.tie_fail("brier decomposition threshold grid differs", desc, ds[TD].values.tolist(), [str(g) for g in grid])
-        return
-    for lb, per_thr in zip(labs, m[1]):
-        sel = dict(zip(dims, lb))
-        for j, t in enumerate(per_thr):
-            q = core.dec_nums(t)
-            g = [float(ds[n].sel(sel).isel({TD: j}).values) for n in bn]
-            if not triples_close(g, q):
-                ctx.tie_fail("brier decomposition value differs from the model", {**desc, "case": sel, "threshold": str(grid[j])}, g, [str(x) for x in q])
-                return
+    else:
+        done = False
+        for lb, per_thr in zip(labs, m[1]):
+            sel = dict(zip(dims, lb))
+            for j, t in enumerate(per_thr):
+                q = core.dec_nums(t)
+                g = [float(ds[n].sel(sel).isel({TD: j}).values) for n in bn]
+                if not triples_close(g, q):
+                    ctx.tie_fail("brier decomposition value differs from the model", {**desc, "case": sel, "threshold": str(grid[j])}, g, [str(x) for x in q])
+                    done = True
+                    break
+            if done:
+                break
     # trapz = trapezoid rule over the decomposition (NaNs propagated, no weight), all three components
     tz = core.call_impl(P.crps_cdf, c["fcst"], c["obs"], threshold_dim=TD, additional_thresholds=c["add"], fcst_fill_method=ffm,
                         integration_method="trapz", include_components=True, propagate_nans=True, **({"preserve_dims": dims} if dims else {}))
     if tz[0] != "ok":
         ctx.violation("crps_cdf(trapz) raises where the Brier decomposition succeeds", desc, "ok", tz[1])
         return
+    thr = [float(x) for x in ds[TD].values]
     for lb in labs:
         sel = dict(zip(dims, lb))
         for n, b in zip(NAMES, bn):
             vals = [float(v) for v in ds[b].sel(sel).values]
-            want = core.dec_num(ctx.model("c07_trapz", enc_list([enc_nums(grid), enc_nums(vals)])))
+            want = core.dec_num(ctx.model("c07_trapz", enc_list([enc_nums(thr), enc_nums(vals)])))
             got = float(tz[1][n].sel(sel).values)
             if not core.close(got, want, tol=1e-8):
                 ctx.violation(f"crps_cdf(trapz) {n} is not the trapezoid integral of the Brier decomposition", {**desc, "case": sel}, str(want), got)
@@ -394,7 +490,7 @@ def brier_tie_and_trapz(ctx, c):
 
 
 def nan_own_case(ctx, c):
-    """a NaN ordinate blanks its own forecast case and leaves every other case unchanged (propagate_nans=True)"""
+    """a NaN ordinate (forecast, or threshold weight) blanks its own forecast case and leaves every other case unchanged (propagate_nans=True)"""
     if c["bad"] or not c["sizes"]:
         return
     dims, labs = case_labels(c["sizes"])
@@ -404,35 +500,69 @@ def nan_own_case(ctx, c):
     c1 = dict(c, opt=dict(c["opt"], propagate_nans=True))
     base = call_crps(c1)
     lb = rng.choice(labs)
-    f2 = c["fcst"].copy()
     sel = dict(zip(dims, lb))
-    j = rng.randrange(f2.sizes[TD])
-    f2.loc[{**sel, TD: f2[TD].values[j]}] = NAN
-    pert = call_crps(dict(c1, fcst=f2))
+    target = "fcst"
+    hit = [lb]
+    if c["weight"] is not None and rng.random() < 0.4:
+        target = "weight"
+        w2 = c["weight"].copy()
+        wsel = {d: v for d, v in sel.items() if d in w2.dims}
+        j = rng.randrange(w2.sizes[TD])
+        w2.loc[{**wsel, TD: w2[TD].values[j]}] = NAN
+        pert = call_crps(dict(c1, weight=w2))
+        hit = [l for l in labs if all(dict(zip(dims, l))[d] == v for d, v in wsel.items())]
+    else:
+        f2 = c["fcst"].copy()
+        j = rng.randrange(f2.sizes[TD])
+        f2.loc[{**sel, TD: f2[TD].values[j]}] = NAN
+        pert = call_crps(dict(c1, fcst=f2))
     if base[0] != "ok" or pert[0] != "ok":
         if base[0] != pert[0]:
             ctx.violation("making one ordinate NaN changes whether crps_cdf raises", describe(c1), base[0], pert[0])
         return
-    ctx.case(("nan_own", describe(c1), lb, j))
-    ctx.count("nan_own_case")
+    ctx.case(("nan_own", target, describe(c1), lb, j))
+    ctx.count("nan_own_case:" + target)
     for l2 in labs:
         s2 = dict(zip(dims, l2))
         for n in NAMES:
             a = float(base[1][n].sel(s2).values)
             b = float(pert[1][n].sel(s2).values)
-            if l2 == lb:
+            if l2 in hit:
                 good = np.isnan(b)
             else:
                 good = (np.isnan(a) and np.isnan(b)) or abs(a - b) <= 1e-12
             if not good:
-                ctx.violation("a NaN ordinate in one forecast case changes another case / does not blank its own case",
-                              {**describe(c1), "nan_at": {**sel, "threshold_index": j}, "looked_at": s2, "component": n}, "nan" if l2 == lb else a, b)
+                ctx.violation(f"a NaN {target} ordinate changes another forecast case / does not blank its own case",
+                              {**describe(c1), "nan_in": target, "nan_at": {**sel, "threshold_index": j}, "looked_at": s2, "component": n}, "nan" if l2 in hit else a, b)
                 return
+
+
+def sweep(ctx, full):
+    """finite sweep: every line over {NaN, 0, 1/2, 1}^3 on thresholds (0, 1, 2) x 7 observation positions, one call per option combination"""
+    vals = [NAN, 0.0, 0.5, 1.0]
+    lines = list(itertools.product(vals, repeat=3))
+    obs_vals = [-1.0, 0.0, 0.5, 1.0, 1.5, 2.0, 3.0]
+    fc = xr.DataArray(np.array([[ln] * len(obs_vals) for ln in lines], dtype=float), dims=["a", "b", TD],
+                      coords={"a": list(range(len(lines))), "b": list(range(len(obs_vals))), TD: [0.0, 1.0, 2.0]})
+    ob = xr.DataArray(obs_vals, dims=["b"], coords={"b": list(range(len(obs_vals)))})
+    weights = [None, xr.DataArray([0.5, 0.5], dims=[TD], coords={TD: [0.0, 2.0]}), xr.DataArray([0.0, 1.0, 0.25], dims=[TD], coords={TD: [0.5, 1.0, 1.75]})]
+    combos = [(f, im, pr, wi) for f in FILLS for im in ("exact", "trapz") for pr in (True, False) for wi in range(3)]
+    if not full:
+        combos = ctx.rng.sample(combos, 6)
+    for f, im, pr, wi in combos:
+        if not ctx.time_left():
+            return
+        c = dict(fcst=fc, obs=ob, weight=weights[wi], add=None, sizes={"a": len(lines), "b": len(obs_vals)}, wkind="sweep", bad=None,
+                 opt=dict(fcst_fill_method=f, threshold_weight_fill_method="forward", integration_method=im, propagate_nans=pr))
+        r = tie_crps(ctx, c)
+        ctx.count("sweep_calls")
+        ctx.count("sweep_cases", len(lines) * len(obs_vals))
 
 
 def run(ctx):
     corpus(ctx)
-    n = ctx.n(260, 4000)
+    sweep(ctx, full=(ctx.tier == "thorough"))
+    n = ctx.n(200, 4000)
     for i in range(n):
         if not ctx.time_left():
             ctx.note(f"time budget reached after {i} generated calls")
@@ -445,13 +575,17 @@ def run(ctx):
         if c["bad"]:
             ctx.count("malformed:" + c["bad"])
         comps = ctx.rng.random() < 0.75
-        ds = tie_crps(ctx, c, components=comps)
+        r = tie_crps(ctx, c, components=comps)
         if i < 3:
             ctx.sample(describe(c))
-        r = ctx.rng.random()
-        if r < 0.3:
+        if r is not None and comps and ctx.rng.random() < 0.5:
+            tie_reduce(ctx, c, r[3], r[1], r[2])
+        k = ctx.rng.random()
+        if k < 0.25:
             partition(ctx, c)
-        elif r < 0.6:
+        elif k < 0.5:
             brier_tie_and_trapz(ctx, c)
-        elif r < 0.8:
+        elif k < 0.7:
             nan_own_case(ctx, c)
+        elif k < 0.78 and not c["bad"]:
+            dims_errors(ctx, c)
